@@ -16,7 +16,7 @@ def _lit(rng, clock, v):
 
 
 def gen_program(rng, clock=None, n_events=None, with_bad=True, with_cancel=True, horizon=None, faults=False,
-                warm=None, beyond=True, bigint=False, initial=True, start_at=None, fractional=False):
+                warm=None, beyond=True, bigint=False, initial=True, start_at=None, fractional=False, prebuilt=True):
     clock = clock or rng.choice(["float", "int", "duration"])
     length = horizon or rng.choice([10, 20, 50])
     start = rng.choice([0, 0, 0, 5]) if clock != "duration" else 0
@@ -66,7 +66,7 @@ def gen_program(rng, clock=None, n_events=None, with_bad=True, with_cancel=True,
                 t = rng.choice(cands)
         if not beyond and t > start + length:
             t = cur
-        return [rng.choice(["abs", "abs", "ev"]), _lit(rng, clock, t), prio, tag], tag, t
+        return [rng.choice(["abs", "abs", "ev", "abs", "ev", "pre"] if prebuilt else ["abs", "abs", "ev"]), _lit(rng, clock, t), prio, tag], tag, t
 
     frontier = []      # (tag, time) of events that exist and may get handlers
     for _ in range(rng.randint(1, 5)):
@@ -137,7 +137,7 @@ def add_stats(rng, prog, kinds=("counter", "tally", "wtally", "persistent"), wat
     # leaf events (no handler entry yet) observe as well
     for acts in list(prog["handlers"].values()) + [prog["init"], prog.get("initial", [])]:
         for a in acts:
-            if a[0] in ("rel", "abs", "ev", "now"):
+            if a[0] in ("rel", "abs", "ev", "pre", "now"):
                 child = a[3] if a[0] != "now" else a[2]
                 if child not in prog["handlers"] and rng.random() < density:
                     prog["handlers"][child] = [obs() for _ in range(rng.randint(1, 2))]
